@@ -168,6 +168,27 @@ def check_C15(ctx, rep):
         arm = arm_of(b)
         if kind == 'push':
             ev = a[1]
+            if ev[0] == 'phi' and all(x[0] == 'agg' and x[2] in ('NormalRecv', 'PaddingRecv') for x in ev[1]) and arm == 'TunnelRecv':
+                # `let event = if next.contains_padding { PaddingRecv } else { NormalRecv }; sq.push(event, ..)`:
+                # judged per path with the variant the path assigned
+                op = fa.blocks[b]['t']['a'][1]
+                pl_ = op.get('m') or op.get('c')
+                okp = pl_ is not None and not pl_['pr']
+                seen_kinds = set()
+                for S in (pfh.at_call(b) if okp else []):
+                    tc = pfh.tracked_const(S, pl_['l'])
+                    kind_ = tc.split('::')[-1] if isinstance(tc, str) and tc.startswith('agg:') else None
+                    if kind_ not in ('NormalRecv', 'PaddingRecv'):
+                        okp = False
+                        break
+                    seen_kinds.add(kind_)
+                    want = kind_ == 'PaddingRecv'
+                    okm = any(f[0] == 'btrue' and next_field(f[1], 'contains_padding') and f[2] is want for f in S)
+                    rep.ob('C15.R1', ns, '%s-kind-matches-packet' % kind_, okm, '')
+                    okf = next_field(a[2], 'client') and next_field(a[4], 'time') and (is_const(a[3], 1 if want else 0) or next_field(a[3], 'contains_padding'))
+                    rep.ob('C15.R1', ns, '%s-same-side-and-time' % kind_, okf, 'push(%s)' % ', '.join(show(x) for x in a[1:]))
+                rep.ob('C15.R1', ns, 'push:per-path-kind', okp and seen_kinds == {'NormalRecv', 'PaddingRecv'}, 'sq.push(%s) in arm %s' % (shape(ev), arm))
+                continue
             okk = ev[0] == 'agg' and ev[2] in ('NormalRecv', 'PaddingRecv') and arm == 'TunnelRecv'
             rep.ob('C15.R1', ns, 'push:%s' % (ev[2] if ev[0] == 'agg' else '?'), okk, 'sq.push(%s) in arm %s' % (shape(ev), arm))
             if okk:
